@@ -14,7 +14,7 @@ use crate::{
     packet::{self, Packet, PacketTrait, SignatureType},
     ser::Serialize,
     types::{
-        EncryptionKey, EskType, Fingerprint, Imprint, KeyDetails, KeyId, KeyVersion, PacketLength,
+        EncryptionKey, EskType, Fingerprint, Imprint, KeyDetails, KeyId, KeyVersion,
         Password, PkeskBytes, PublicParams, SignatureBytes, SigningKey, Tag, Timestamp,
         VerifyingKey,
     },
@@ -215,9 +215,9 @@ impl Serialize for SignedPublicKey {
     }
 
     fn write_len(&self) -> usize {
-        let key_len = self.primary_key.write_len().try_into().expect("key size");
-        let mut sum = PacketLength::fixed_encoding_len(key_len);
-        sum += key_len as usize;
+        let key_len = self.primary_key.write_len();
+        let mut sum = self.primary_key.packet_header_version().header_len(key_len);
+        sum += key_len;
         sum += self.details.write_len();
         sum += self.public_subkeys.write_len();
         sum
@@ -377,13 +377,13 @@ impl Serialize for SignedPublicSubKey {
     }
 
     fn write_len(&self) -> usize {
-        let key_len = self.key.write_len().try_into().expect("key size");
-        let mut sum = PacketLength::fixed_encoding_len(key_len);
-        sum += key_len as usize;
+        let key_len = self.key.write_len();
+        let mut sum = self.key.packet_header_version().header_len(key_len);
+        sum += key_len;
         for sig in &self.signatures {
-            let sig_len = sig.write_len().try_into().expect("signature size");
-            sum += PacketLength::fixed_encoding_len(sig_len);
-            sum += sig_len as usize;
+            let sig_len = sig.write_len();
+            sum += sig.packet_header_version().header_len(sig_len);
+            sum += sig_len;
         }
         sum
     }
